@@ -464,7 +464,7 @@ class ndarray(object):
     def __ror__(self, o): return _elementwise2(o, self, "or")
     def __invert__(self): return _elementwise1(self, "not")
     def __neg__(self): return _elementwise1(self, "neg")
-    def __pos__(self): return self
+    def __pos__(self): return self.copy()      # (+a is a NEW array in NumPy, as every ufunc result is)
     def __abs__(self): return _elementwise1(self, "abs")
 
     # -- reductions (delegated) --------------------------------------------
